@@ -74,11 +74,18 @@ MUTANTS = [
     ("versine by 1 - cos (seed C17b)", "AegeanTools/angle_tools.py",
      "        * np.sin(np.radians(dlon) / 2) ** 2",
      "        * (1 - np.cos(np.radians(dlon))) / 2", "C17-R6"),
+    ("translate adds the offset into the caller's array (seed C17c)",
+     "AegeanTools/angle_tools.py",
+     "    ra_out = ra + np.degrees(np.arctan2(y, x))",
+     "    ra_out = np.asarray(ra, dtype=float)\n    ra_out += np.degrees(np.arctan2(y, x))", "C17-R7"),
 ]
 TWINS = [
     ("haversine with explicit conversion", "AegeanTools/angle_tools.py",
      "    a = np.sin(np.radians(dlat) / 2) ** 2\n",
      "    a = np.sin(dlat * np.pi / 360) ** 2\n"),
+    ("translate accumulates into a fresh array", "AegeanTools/angle_tools.py",
+     "    ra_out = ra + np.degrees(np.arctan2(y, x))",
+     "    ra_out = np.degrees(np.arctan2(y, x))\n    ra_out += ra"),
 ]
 
 
@@ -97,6 +104,14 @@ def run(ctx):
     formulae(ctx, prog, {"R1": "C17-R1", "R2": "C17-R2", "R3": "C17-R3",
                          "R6": "C17-R6"})
     sexagesimal(ctx, prog, mod)
+    from .. import precision
+    precision.rule(
+        ctx, prog, "C17-R8", [lambda sh: sh.startswith("angle_tools.")],
+        "precision: the spherical primitives compute in double precision "
+        "(agreement to 1e-9 deg is impossible in float32)",
+        "a dtype narrower than float64 is used", floor=8)
+    r7_purity(ctx, prog, "C17-R7", ("gcd", "bear", "translate", "dist_rhumb",
+                                    "bear_rhumb", "translate_rhumb"))
 
 
 def formulae(ctx, prog, R):
@@ -387,3 +402,94 @@ def _half_angle_zero(e, syms):
     sub = {s: 360 / sp.pi * sp.Symbol(s.name + "_h", real=True)
            for s in syms}
     return sym.is_zero(sp.expand(e.subs(sub)))
+
+
+ALIASING_CALLS = {"np.asarray", "numpy.asarray", "np.asanyarray",
+                  "np.atleast_1d", "np.atleast_2d", "np.ravel", "np.squeeze",
+                  "np.reshape", "np.transpose", "np.ascontiguousarray",
+                  "np.broadcast_to", "np.asfarray"}
+ALIASING_METHODS = {"view", "reshape", "ravel", "squeeze", "transpose",
+                    "swapaxes"}
+INPLACE_METHODS = {"sort", "fill", "put", "resize", "itemset", "partition",
+                   "byteswap"}
+
+
+def r7_purity(ctx, prog, rule, names):
+    """vectorised geometry primitives never write into their arguments"""
+    ctx.rule(rule, "the vectorised primitives (gcd, bear, translate, rhumb "
+             "variants) do not modify their array arguments: no in-place "
+             "update of a parameter or of a view of one (np.asarray of a "
+             "float64 array IS that array) -- otherwise the start point of "
+             "translate is overwritten by its result and the distance / "
+             "bearing back to it are wrong")
+    n = 0
+    for name in names:
+        if not prog.has_func("angle_tools." + name):
+            continue
+        fi = prog.func("angle_tools." + name)
+        alias = set(fi.params)
+        stmts = sorted((x for x in walk_no_nested(fi.node)
+                        if isinstance(x, (ast.Assign, ast.AugAssign,
+                                          ast.Expr))),
+                       key=lambda x: (x.lineno, x.col_offset))
+
+        def is_alias(e):
+            if isinstance(e, ast.Name):
+                return e.id in alias
+            if isinstance(e, (ast.Subscript, ast.Starred)):
+                return is_alias(e.value)
+            if isinstance(e, ast.Attribute) and e.attr in ("T", "real",
+                                                           "flat"):
+                return is_alias(e.value)
+            if isinstance(e, ast.Call):
+                fn = norm(e.func)
+                if fn in ALIASING_CALLS and e.args:
+                    return is_alias(e.args[0])
+                if fn in ("np.array", "numpy.array") and e.args and any(
+                        k.arg == "copy" and isinstance(k.value, ast.Constant)
+                        and k.value.value is False for k in e.keywords):
+                    return is_alias(e.args[0])
+                if isinstance(e.func, ast.Attribute) and \
+                        e.func.attr in ALIASING_METHODS:
+                    return is_alias(e.func.value)
+            return False
+        for st in stmts:
+            bad = None
+            if isinstance(st, ast.AugAssign):
+                n += 1
+                if is_alias(st.target):
+                    # rebinding a scalar parameter is harmless only when it
+                    # cannot be an array: these functions are vectorised
+                    bad = st
+            elif isinstance(st, ast.Assign):
+                for t in st.targets:
+                    if isinstance(t, ast.Subscript) and is_alias(t.value):
+                        bad = st
+                for t in st.targets:
+                    if isinstance(t, ast.Name):
+                        if is_alias(st.value):
+                            alias.add(t.id)
+                        else:
+                            alias.discard(t.id)
+                    elif isinstance(t, (ast.Tuple, ast.List)):
+                        for el in t.elts:
+                            if isinstance(el, ast.Name):
+                                alias.discard(el.id)
+            for c in ast.walk(st):
+                if isinstance(c, ast.Call):
+                    for k in c.keywords:
+                        if k.arg == "out" and is_alias(k.value):
+                            bad = st
+                    if isinstance(c.func, ast.Attribute) and \
+                            c.func.attr in INPLACE_METHODS and \
+                            is_alias(c.func.value):
+                        bad = st
+            if bad is not None:
+                ctx.check(rule, fi, "in-place update " + norm(bad, 60), False,
+                          "%s writes into an argument of %s (or a view of "
+                          "it): the caller's array is modified" %
+                          (norm(bad, 60), name), node=bad)
+        ctx.ob(rule, fi, "%s leaves its arguments untouched" % name, True,
+               {}, fi.node)
+        n += 1
+    ctx.floor(rule, n, 3, "vectorised primitives examined")
